@@ -47,6 +47,8 @@ class ExprPolicy:
         self.len_pins = []                  # [(compiled uid regex, [lengths])]
         self.opt_pins = []                  # [(compiled uid regex, [0|1,...])]
         self.import_callee = False
+        self.str_keys = False               # object-literal keys may be quoted strings (PropName::Str)
+        self.private_names = False          # member properties may be private names (`o.#x`)
         self.free_strings = None
         self.concrete_enums = ()
         self.op_budget = op_budget          # max number of non-leaf expression nodes in the whole input (None = unbounded)
@@ -124,7 +126,7 @@ class ExprPolicy:
             elif owner == 'OptCall' and f == 'callee':
                 allowed = [k for k in allowed if k in ('Ident', 'Member', 'Paren', 'Call', 'OptChain')]
             elif owner == 'UnaryExpr':
-                allowed = [k for k in allowed if k in ('Ident', 'Lit', 'Call', 'Member', 'Paren', 'Array', 'Tpl', 'This')]
+                allowed = [k for k in allowed if k in ('Ident', 'Lit', 'Call', 'Member', 'Paren', 'Array', 'Tpl', 'This', 'OptChain')]
             elif owner == 'UpdateExpr':
                 allowed = [k for k in allowed if k in ('Ident', 'Member')]
             elif owner == 'CondExpr':
@@ -173,7 +175,7 @@ class ExprPolicy:
         if enum == 'Callee':
             return ['Expr', 'Import'] if self.import_callee else ['Expr']
         if enum == 'MemberProp':
-            return ['Ident', 'Computed']
+            return ['Ident', 'Computed', 'PrivateName'] if self.private_names else ['Ident', 'Computed']
         if enum == 'AssignTarget':
             return ['Simple', 'Pat']
         if enum == 'SimpleAssignTarget':
@@ -201,7 +203,7 @@ class ExprPolicy:
         if enum == 'Prop':
             return ['KeyValue']
         if enum == 'PropName':
-            return ['Ident']
+            return ['Ident', 'Str'] if self.str_keys else ['Ident']
         return None
 
     # ---------------------------------------------------------------- vec lengths
@@ -455,7 +457,7 @@ class ExprGrammar(Grammar):
             # delete needs a member operand (strict-mode parse error otherwise)
             m = re.match(r'^(.*)\.arg$', uid)
             if m and ('e!' + m.group(1) + '.op') in ctx.vars and li.role and li.role[0] == 'UnaryExpr':
-                if vn != 'Member':
+                if vn not in ('Member', 'OptChain'):
                     ctx.add(ctx.vars['e!' + m.group(1) + '.op'] != 6)
             # a non-optional chain link must continue a chain
             m = re.match(r'^(.*)\.base/(Member\.obj|Call\.callee)$', uid)
@@ -660,6 +662,8 @@ class StmtPolicy(ExprPolicy):
         owner, f = role if role else (None, None)
         if owner == 'IfStmt' and f == 'alt':
             return [0, 1]
+        if owner == 'ImportDecl' and f == 'with':
+            return [0]          # import attributes are outside the grammar (and not printed)
         if self.all_present and (owner, f) in (('ForStmt', 'init'), ('ForStmt', 'test'), ('ForStmt', 'update'), ('ReturnStmt', 'arg'), ('TryStmt', 'handler'), ('TryStmt', 'finalizer'), ('CatchClause', 'param'), ('VarDeclarator', 'init'), ('ClassProp', 'value')):
             return [1]
         if self.all_present and (owner, f) in (('Class', 'super_class'),):
